@@ -110,6 +110,7 @@ type verifDCConfig struct {
 	Attachments     []verifDCAttachment
 	FinalizeEnabled bool
 	Sync, Finalize  hooks.Hook // default: disabled stub
+	Customize       hooks.Hook // nil: the controller has no customize hook
 }
 
 type verifDC struct {
@@ -154,6 +155,9 @@ func verifNewDC(w *env.World, cfg verifDCConfig) *verifDC {
 	if cfg.FinalizeEnabled {
 		dc.Spec.Hooks.Finalize = goodHook()
 	}
+	if cfg.Customize != nil {
+		dc.Spec.Hooks.Customize = goodHook()
+	}
 	for _, r := range cfg.Rules {
 		dc.Spec.Resources = append(dc.Spec.Resources, v1alpha1.DecoratorControllerResourceRule{
 			ResourceRule:       v1alpha1.ResourceRule{APIVersion: r.Res.APIVersion, Resource: r.Res.Name},
@@ -178,6 +182,9 @@ func verifNewDC(w *env.World, cfg verifDCConfig) *verifDC {
 		panic(err)
 	}
 	c.syncHook, c.finalizeHook = cfg.Sync, cfg.Finalize
+	if cfg.Customize != nil {
+		c.customize.VerifSetHook(cfg.Customize)
+	}
 	c.queue = q
 	d := &verifDC{decoratorController: c, W: w, Queue: q, Recorder: rec, Cfg: cfg}
 	d.Snapshot(nil, nil)
